@@ -8,7 +8,7 @@ from sim import common
 from sim import scenario as SC
 
 
-def build_turtle(scratch, integrator="LangevinInertia", seed=1, settings_seed=None):
+def build_turtle(scratch, integrator="LangevinInertia", seed=1, settings_seed=None, subcycles=1):
     import tomli
     from infretis.classes.engines.factory import create_engine
     from infretis.classes.orderparameter import create_orderparameter
@@ -16,6 +16,7 @@ def build_turtle(scratch, integrator="LangevinInertia", seed=1, settings_seed=No
     with open(os.path.join(common.REPO, "test", "simulations", "data", "wf.toml"), "rb") as fh:
         cfg = tomli.load(fh)
     cfg["engine"]["integrator"]["class"] = integrator
+    cfg["engine"]["subcycles"] = subcycles
     if integrator == "VelocityVerlet":
         cfg["engine"]["integrator"]["settings"] = {}
     elif settings_seed is not None:
@@ -48,7 +49,7 @@ def build_turtle(scratch, integrator="LangevinInertia", seed=1, settings_seed=No
     return eng, write_conf, read_frames, lambda fr, sign: float(fr["pos"][0, 0])
 
 
-def build_ase(scratch, integrator="velocityverlet", seed=1):
+def build_ase(scratch, integrator="velocityverlet", seed=1, subcycles=1):
     import tomli
     from infretis.classes.engines.factory import create_engine
     from infretis.classes.orderparameter import create_orderparameter
@@ -57,7 +58,7 @@ def build_ase(scratch, integrator="velocityverlet", seed=1):
         cfg = tomli.load(fh)
     cfg["engine"]["calculator_settings"]["module"] = os.path.join(h2, "H2-calc.py")
     cfg["orderparameter"]["periodic"] = False
-    cfg["engine"]["subcycles"] = 1
+    cfg["engine"]["subcycles"] = subcycles
     cfg["engine"]["timestep"] = 1.0
     cfg["engine"]["integrator"] = integrator
     cfg["engine"]["calculator_settings"]["sigma"] = 0.0
